@@ -1,5 +1,7 @@
-(* Model of annexb::AnnexBReader::push / reset / maybe_emit (src/annexb.rs:130-259), index style.
-   A call to the fragment handler is (bufs, end). *)
+(* Model of annexb::AnnexBReader::push / reset / maybe_emit (src/annexb.rs:130-259).
+   Same states, same order of checks, same calls with the same slices; the pair
+   (fake, start) of the Rust is carried as (fake, buf[start..i]) - the slice itself instead of
+   its two indices - so `start + backtrack < end` reads `backtrack < length (buf[start..end])`. *)
 From H264 Require Import Base.Prelude.
 
 Inductive astate := AStart | AStartOneZero | AStartTwoZero | AInUnit | AInUnitOneZero | AInUnitTwoZero.
@@ -13,44 +15,48 @@ Definition in_unit (s : astate) : option nat :=
 
 Record call := mk_call { bufs : list (list byte); fin : bool }.
 
-(* maybe_emit(buf, fake_and_start, end, backtrack, is_end) *)
-Definition maybe_emit (buf : list byte) (fs : option (nat * nat)) (e bt : nat) (is_end : bool) : list call :=
+(* maybe_emit(buf, fake_and_start, end, backtrack, is_end); real = buf[start..end] *)
+Definition maybe_emit (fs : option (nat * list byte)) (bt : nat) (is_end : bool) : list call :=
   match fs with
-  | Some (fake, start) =>
-      if Nat.ltb (start + bt) e then
-        if Nat.ltb 0 fake then [mk_call [zeros fake; sub buf start (e - bt)] is_end]
-        else [mk_call [sub buf start (e - bt)] is_end]
+  | Some (fake, real) =>
+      if Nat.ltb bt (length real) then
+        if Nat.ltb 0 fake then [mk_call [zeros fake; drop_last bt real] is_end]
+        else [mk_call [drop_last bt real] is_end]
       else if is_end then [mk_call [] true] else []
   | None => []
   end.
 
+(* while in a unit, every examined byte extends buf[start..i] *)
+Definition grow (fs : option (nat * list byte)) (b : byte) : option (nat * list byte) :=
+  match fs with Some (fake, real) => Some (fake, real ++ [b]) | None => None end.
+
 (* the `while i < buf.len()` loop, one examined byte per step; `l` is buf[i..] *)
-Fixpoint scan (buf : list byte) (l : list byte) (i : nat) (st : astate) (fs : option (nat * nat))
-         (out : list call) : astate * option (nat * nat) * list call :=
+Fixpoint scan (l : list byte) (st : astate) (fs : option (nat * list byte)) (out : list call)
+  : astate * option (nat * list byte) * list call :=
   match l with
   | [] => (st, fs, out)
   | b :: l' =>
     match st with
-    | AStart => scan buf l' (S i) (if b =? 0 then AStartOneZero else AStart) fs out
-    | AStartOneZero => scan buf l' (S i) (if b =? 0 then AStartTwoZero else AStart) fs out
+    | AStart => scan l' (if b =? 0 then AStartOneZero else AStart) fs out
+    | AStartOneZero => scan l' (if b =? 0 then AStartTwoZero else AStart) fs out
     | AStartTwoZero =>
-        if b =? 0 then scan buf l' (S i) AStartTwoZero fs out
-        else if b =? 1 then scan buf l' (S i) AInUnit (Some (0%nat, S i)) out
-        else scan buf l' (S i) AStart fs out
-    | AInUnit => scan buf l' (S i) (if b =? 0 then AInUnitOneZero else AInUnit) fs out
-    | AInUnitOneZero => scan buf l' (S i) (if b =? 0 then AInUnitTwoZero else AInUnit) fs out
+        if b =? 0 then scan l' AStartTwoZero fs out
+        else if b =? 1 then scan l' AInUnit (Some (0%nat, [])) out
+        else scan l' AStart fs out
+    | AInUnit => scan l' (if b =? 0 then AInUnitOneZero else AInUnit) (grow fs b) out
+    | AInUnitOneZero => scan l' (if b =? 0 then AInUnitTwoZero else AInUnit) (grow fs b) out
     | AInUnitTwoZero =>
-        if b =? 0 then scan buf l' (S i) AStartTwoZero None (out ++ maybe_emit buf fs i 2 true)
-        else if b =? 1 then scan buf l' (S i) AInUnit (Some (0%nat, S i)) (out ++ maybe_emit buf fs i 2 true)
-        else scan buf l' (S i) AInUnit fs out
+        if b =? 0 then scan l' AStartTwoZero None (out ++ maybe_emit fs 2 true)
+        else if b =? 1 then scan l' AInUnit (Some (0%nat, [])) (out ++ maybe_emit fs 2 true)
+        else scan l' AInUnit (grow fs b) out
     end
   end.
 
 Definition push (st : astate) (buf : list byte) : astate * list call :=
-  let fs0 := match in_unit st with Some bt => Some (bt, 0%nat) | None => None end in
-  let '(st', fs, out) := scan buf buf 0 st fs0 [] in
+  let fs0 := match in_unit st with Some bt => Some (bt, []) | None => None end in
+  let '(st', fs, out) := scan buf st fs0 [] in
   match in_unit st' with
-  | Some bt => (st', out ++ maybe_emit buf fs (length buf) bt false)
+  | Some bt => (st', out ++ maybe_emit fs bt false)
   | None => (st', out)
   end.
 
